@@ -15,8 +15,8 @@ META = {
     "engine": "smallscope",
     "technique": "exhaustive small-scope enumeration of models x partial assignments / node subsets / connection maps, truth-table comparison",
     "text": "For every model with <=3 variables and <=2 (quick) / <=3 (thorough) terms in every container and label scheme: subvalue with all 27 partial "
-            "assignments over the domain plus off-domain numbers and a sympy symbol, subgraph with all 8 node subsets x every connection map (None, {}, "
-            "all domain maps of the outside variables), in function and method form, and normalize (function and method) for two target values. "
+            "assignments over the domain plus off-domain numbers and a sympy symbol, subgraph with all 8 node subsets x every partial connection map of the outside variables "
+            "(absent / either domain value, and None), in function and method form, and normalize (function and method) for two target values. "
             "Result type, table over the remaining variables, and argument immutability are checked.",
     "note": "Bounded: n<=3, dyadic coefficients. Symbolic results are compared after substituting a number (never structurally).",
 }
@@ -138,7 +138,9 @@ def check(case, st):
                 for nodes_idx in itertools.combinations(range(N), k):
                     nodes = [labels[i] for i in nodes_idx]
                     outside = [labels[i] for i in range(N) if i not in nodes_idx]
-                    conns = [None, {}] + [dict(zip(outside, c)) for c in itertools.product((d0, d1), repeat=len(outside))]
+                    # every PARTIAL connection map too: each outside variable absent (-> default 0) or fixed to a domain value
+                    conns = [None] + [{l: c for l, c in zip(outside, combo) if c is not None}
+                                      for combo in itertools.product((None, d0, d1), repeat=len(outside))]
                     for conn in conns:
                         fixed = {l: (conn or {}).get(l, 0) for l in outside}
                         Dref = {}
@@ -215,7 +217,7 @@ def check(case, st):
 
 def run(ctx):
     ctx.bounds = {"n": N, "coefs": COEFS, "offsets": OFFSETS, "max_terms": 2 if ctx.quick else 3,
-                  "subvalue_assignments": len(sub_menu(False)), "subgraph": "8 node subsets x (None, {}, all domain maps of outside variables) x nodes as set/list",
+                  "subvalue_assignments": len(sub_menu(False)), "subgraph": "8 node subsets x (None + every partial map of the outside variables into the domain) x nodes as set/list",
                   "normalize_values": [1, 2.5]}
     ctx.rule = "case = (kind, polynomial); checked in every container x label scheme x call; non-trivial = has a non-constant term"
     explore_cases(ctx, gen_cases(ctx.tier), check, label="C18")
